@@ -292,16 +292,22 @@ PRelocInfo ReadRelocInfo(FILE* f) {
                 PInfo->ExportEntries
                         = (PExportEntry)malloc(sizeof(TExportEntry) * PInfo->ExportCount);
                 if ((PInfo->ExportCount == 0) || (PInfo->ExportEntries != NULL)) {
-                    PInfo->Strings = (char*)malloc(sizeof(char) * StringLen);
-                    if ((StringLen == 0) || (PInfo->Strings != NULL)) {
-                        /* read relocation entries */
+                    /* one more byte: names are used as C strings, the last one must end */
 
-                        for (z = 0, PEntry = PInfo->RelocEntries; z < PInfo->RelocCount;
-                             z++, PEntry++) {
+                    PInfo->Strings = (char*)malloc(sizeof(char) * ((size_t)StringLen + 1));
+                    if (PInfo->Strings != NULL) {
+                        Boolean RelocsOK;
+
+                        PInfo->Strings[StringLen] = '\0';
+
+                        /* read relocation entries; a name must lie inside the strings */
+
+                        for (z = 0, PEntry = PInfo->RelocEntries;
+                             z < (LongInt)PInfo->RelocCount; z++, PEntry++) {
                             if (!Read8(f, &PEntry->Addr)) {
                                 break;
                             }
-                            if (!Read4(f, &StringPos)) {
+                            if (!Read4(f, &StringPos) || (StringPos > StringLen)) {
                                 break;
                             }
                             PEntry->Name = PInfo->Strings + StringPos;
@@ -309,12 +315,13 @@ PRelocInfo ReadRelocInfo(FILE* f) {
                                 break;
                             }
                         }
+                        RelocsOK = (z == (LongInt)PInfo->RelocCount);
 
                         /* read export entries */
 
-                        for (z = 0, PExp = PInfo->ExportEntries; z < PInfo->ExportCount;
-                             z++, PExp++) {
-                            if (!Read4(f, &StringPos)) {
+                        for (z = 0, PExp = PInfo->ExportEntries;
+                             RelocsOK && (z < (LongInt)PInfo->ExportCount); z++, PExp++) {
+                            if (!Read4(f, &StringPos) || (StringPos > StringLen)) {
                                 break;
                             }
                             PExp->Name = PInfo->Strings + StringPos;
@@ -328,7 +335,7 @@ PRelocInfo ReadRelocInfo(FILE* f) {
 
                         /* read strings */
 
-                        if (z == PInfo->ExportCount) {
+                        if (RelocsOK && (z == (LongInt)PInfo->ExportCount)) {
                             OK = ((fread(PInfo->Strings, 1, StringLen, f)) == StringLen);
                         }
                     }
